@@ -35,6 +35,34 @@ def _c07_shrink(toks):
     return out
 
 
+def _c08_nontrivial(toks, impl):
+    # at least one read split into >= 2 pieces, and >= 2 reads (cross-read bucket consistency is exercised)
+    return impl != "panic" and ";" in impl and "|" in impl
+
+
+def _c08_tags(toks, impl):
+    t = ["p=%s" % toks[3], "rc=%s" % toks[4], "perm=" + ("default" if toks[5] == "default" else "random"), "container=" + toks[6],
+         "reads=%d" % (toks[7].count(",") + 1)]
+    t.append("answer=panic" if impl == "panic" else ("pieces>=2-in-some-read" if ";" in impl else "single-pieces"))
+    if any(len(r) < int(toks[2]) for r in toks[7].split(",")):
+        t.append("has-read<k")
+    return t
+
+
+def _c08_shrink(toks):
+    out = []
+    reads = toks[7].split(",")
+    for i in range(len(reads)):
+        if len(reads) > 1:
+            out.append(toks[:7] + [",".join(reads[:i] + reads[i + 1:])])
+        r = reads[i]
+        for blk in (len(r) // 2, 4, 1):
+            if blk >= 1 and len(r) > blk:
+                for j in range(0, len(r) - blk + 1, blk):
+                    out.append(toks[:7] + [",".join(reads[:i] + [r[:j] + r[j + blk:]] + reads[i + 1:])])
+    return out
+
+
 PROPS = {
     "C07": {
         "lean_modules": ["Dbg.Props.C07"],
@@ -50,5 +78,20 @@ PROPS = {
         "trusted_base": ["modelled, not verified: `Vmer::get_kmer`/`Kmer::extend_right` deliver the p-mer at a position (the model reads "
                          "the window directly; tied by T2 through the reported minimizer strings); the score closure is a pure function"],
         "assumptions": ["score function is pure", "theorem guard 2k-p <= 65535 (outside it: known finding D7)"],
+    },
+    "C08": {
+        "lean_modules": ["Dbg.Props.C08"],
+        "theorems": ["Msp.C08_pieces_exact", "Msp.C08_pieces_cover", "Msp.extsFromSliceBounds_eq"],
+        "partial": ["C08_bucket_pure_full (the bucket clause: stated as a Prop in Props/C08.lean, not yet proved; decided so far only by "
+                    "evaluating BucketsPure on the implementation's pieces for every generated read set)"],
+        "n_quick": 4000, "n_thorough": 200000,
+        "nontrivial": _c08_nontrivial, "tags": _c08_tags, "shrink": _c08_shrink,
+        "rule": "requests `msp k p rc perm container reads`: 1-5 reads per set (random, tandem, homopolymer, palindromic, chunk-pasted; a third "
+                "of the later reads are reverse complements / shifted windows / copies of earlier ones so that the same k-mer occurs in several "
+                "reads, positions and strands), p in {2,3,4} (thorough: ..6), k = p+1..p+12, default and random permutations, rc on/off, "
+                "containers DnaBytes, DnaString, Lmer1/2/3 (k capped so that 2k-p fits, with a 1/30 stream violating the capacity "
+                "assertion). Non-trivial = at least two reads and some read split into >= 2 pieces.",
+        "trusted_base": ["modelled, not verified: Vmer::from_slice / get of each container reproduce the bases written (that is C13/C14/C17)"],
+        "assumptions": ["permutation indices are in range (the crate indexes perm[rank] unchecked otherwise)"],
     },
 }
